@@ -153,10 +153,20 @@ ControlResponse parse_response(NativeSocket socket, const ControlTransferProgres
     std::string line;
     bool status_seen = false;
     std::optional<std::size_t> payload_length;
+    std::string last_key;
 
     while (recv_line(socket, line)) {
         if (line.empty()) {
             break;
+        }
+        if (line.front() == ' ') {
+            // Continuation of a folded multi-line value.
+            const auto it = response.fields.find(last_key);
+            if (it != response.fields.end()) {
+                it->second.push_back('\n');
+                it->second.append(line, 1, std::string::npos);
+            }
+            continue;
         }
         const auto pos = line.find(':');
         if (pos == std::string::npos) {
@@ -182,6 +192,7 @@ ControlResponse parse_response(NativeSocket socket, const ControlTransferProgres
             }
         } else {
             response.fields[key] = value;
+            last_key = key;
         }
     }
 
